@@ -807,7 +807,8 @@ def _finalize_parse_info(text, nodes, pos, fullparse):
 
     for node in visit(nodes):
         pos_info = node._metadata.position_info
-        if pos_info:
+        if pos_info and not isinstance(pos_info, _PositionInfo):
+            # (Nodes produced by an earlier, nested parse are already done.)
             start, end = pos_info
             end -= 1
             node._metadata.position_info = _PositionInfo(
